@@ -120,6 +120,11 @@ def conformance(ck, tier, workers, d):
     for m in matches:
         ck.case({"ev": "dlog", "slot": re.sub(r"\d+", "i", m["slot"]), "kind": by_id[m["id"]]["ev"]})
         if not m["match"]:
+            if by_id[m["id"]]["ev"] == "setup" and m["slot"] in ("g", "h"):
+                # the generators are not [scripted scalar] * generator: the scripted draws are not
+                # consumed in the order (secret, g, h) any more - the harness has to follow
+                raise vlib.ToolError("setup event %d: scripted draws are not aligned with the library's "
+                                     "use of the RNG (slot %s)" % (m["id"], m["slot"]))
             groups.setdefault((by_id[m["id"]]["ev"], "dlog"), []).append((m["id"], m["slot"]))
     for (ev, cls), lst in groups.items():
         first = by_id[lst[0][0]]
